@@ -42,6 +42,17 @@ def gen_cases(ctx):
         x = (start + (-1 if rev else 1) * rng.randint(-30, 60) * dt) if rng.random() < 0.6 else rng.randint(start - 50 * dt, start + 50 * dt)
         out.append({"k": "tk", "start": start, "stop": stop, "dt": dt, "ref": ref, "rev": (not rev) if wrongdir else rev,
                     "missing": missing, "n": q, "x": x, "unit": rng.choice(UNITS), "updates": rng.randint(0, 45)})
+    # fixed clocks: a stop time a hair (1 s, 1 % of dt) short of / past a whole number of steps, both directions
+    for dt, nst, rem in [(600, 5, 599), (600, 5, 594), (3600, 3, 3599), (3600, 3, 3565), (100, 7, 99), (600, 5, 1), (86400, 2, 86399)]:
+        for rev in (False, True):
+            start = 500000
+            stop = start - (nst * dt + rem) if rev else start + nst * dt + rem
+            out.append({"k": "tk", "start": start, "stop": stop, "dt": dt, "ref": None, "rev": rev, "missing": None, "n": nst,
+                        "x": stop, "unit": UNITS[0], "updates": nst + 1})
+    # fixed period spellings: durations of a day and more in every type (a datetime.timedelta keeps days apart from seconds)
+    for v in [86399, 86400, 86401, 129600, 172800, 1000000]:
+        for sk in ("tdelta", "delta", "int"):
+            out.append({"k": "period", "sk": sk, "value": v, "text": ""})
     # period spellings
     for _ in range(n // 2):
         v = rng.choice([0, 1, 5, 60, 90, 3600, rng.randint(0, 10**6)])
